@@ -10,6 +10,7 @@ Switch points (segment boundaries): atomic operations, lock/cond/once/waitgroup/
 vYield — plus every shared access with opts["switch_on"] == "all". Plain accesses between two switch points execute in
 the same slice (Go memory model: data-race-free programs are sequentially consistent; data-race freedom itself is not
 checked here)."""
+import os
 import z3
 from .terms import *
 from .values import *
@@ -34,7 +35,7 @@ class Thread:
         self.idx = idx
         self.name = name
         self.fv = fv
-        self.to = [ex.fresh_int("to_%s_r%d" % (name, r), 8) for r in range(rounds)]
+        self.to = [ex.fresh_int("to_%s_r%d" % (name, r), 16) for r in range(rounds)]
         self.events = []
         self.nseg = 0
         self.asserts = []
@@ -328,7 +329,7 @@ class Conc:
         """the segment currently being recorded is executed in some round"""
         th = self.recording
         seg = max(th.nseg - 1, 0)
-        return int_cmp("<", seg, th.to[-1], 8, False)
+        return int_cmp("<", seg, th.to[-1], 16, False)
 
     def is_written(self, o, path):
         ws = self.written.get(o.id)
@@ -346,9 +347,9 @@ class Conc:
             ws.add(path)
             self.changed = True
 
-    def add_event(self, guard, apply, desc, pos=None, visible=False):
+    def add_event(self, guard, apply, desc, pos=None, visible=False, same_op=False):
         th = self.recording
-        if visible or self.switch_all:
+        if (visible or self.switch_all) and not same_op:
             th.nseg += 1
         if th.nseg == 0:
             th.nseg = 1
@@ -448,7 +449,8 @@ class Conc:
                     self.cand_missing.append((b_and(active, g_), kd, x, key))
                 if wcond is not False:
                     self.orig_write_cell(o, path, wval if wval is not None else ex.zero(ex.path_tid(o.tid, path)), b_and(active, wcond))
-            self.add_event(gg, apply, "atomic %s o%d%s" % (kind, o.id, r.path), pos, visible=True)
+            self.add_event(gg, apply, "atomic %s o%d%s" % (kind, o.id, r.path), pos, visible=True, same_op=not first)
+            first = False
             results.append((g, res))
         if nilg is not False and b_and(guard, nilg) is not False:
             ex.path_kills += 1
@@ -1050,7 +1052,7 @@ class Conc:
             for r in range(R):
                 v = th.to[r]
                 ex.nondets.append(("sched.%s.r%d" % (th.name, r), v, "uint"))
-                ex.assume(b_and(int_cmp("<=", prev, v, 8, False), int_cmp("<=", v, th.nseg, 8, False)), True, "")
+                ex.assume(b_and(int_cmp("<=", prev, v, 16, False), int_cmp("<=", v, th.nseg, 16, False)), True, "")
                 row.append((prev, v))
                 prev = v
             wins.append(row)
@@ -1061,7 +1063,7 @@ class Conc:
             for t, th in enumerate(self.threads):
                 lo, hi = wins[t][r]
                 for e in th.events:
-                    inw = b_and(int_cmp("<=", lo, e.seg, 8, False), int_cmp("<", e.seg, hi, 8, False))
+                    inw = b_and(int_cmp("<=", lo, e.seg, 16, False), int_cmp("<", e.seg, hi, 16, False))
                     active = b_and(e.guard, inw)
                     if active is False:
                         continue
@@ -1070,7 +1072,7 @@ class Conc:
         self.replaying = False
         # executed(t, seg): segment seg of thread t ran in some round
         self.final_to = [wins[t][R - 1][1] for t in range(T)]
-        self.done_guards = [int_cmp("==", self.final_to[t], self.threads[t].nseg, 8, False) for t in range(T)]
+        self.done_guards = [int_cmp("==", self.final_to[t], self.threads[t].nseg, 16, False) for t in range(T)]
         # obligations recorded inside threads hold only if their segment was executed
         # candidate coverage must be complete: otherwise schedules were silently pruned
         for g, kd, x, key in self.cand_missing:
@@ -1119,7 +1121,7 @@ def p_thread_idle(ex, args, guard, pos):
     i = args[0]
     if not isinstance(i, int):
         raise Unsupported("vThreadIdle: index must be concrete")
-    return int_cmp("==", c.final_to[i], 0, 8, False), guard
+    return int_cmp("==", c.final_to[i], 0, 16, False), guard
 
 
 def p_thread_done(ex, args, guard, pos):
@@ -1140,4 +1142,8 @@ def schedule_of(ex, model):
         a = active if isinstance(active, bool) else z3.is_true(model.eval(active, model_completion=True))
         if a:
             out.append("r%d %s seg%d: %s%s" % (r, tname, e.seg, e.desc, (" @" + str(e.pos).replace("/repo/", "")) if e.pos else ""))
+        elif os.environ.get("VERIF_SCHED") == "all":
+            ge = e.guard if isinstance(e.guard, bool) else z3.is_true(model.eval(e.guard, model_completion=True))
+            if ge:
+                out.append("   (pending) r%d %s seg%d: %s" % (r, tname, e.seg, e.desc))
     return out
